@@ -71,7 +71,7 @@ const (
 
 func (c *CPU) createTable() {
 	c.instructions = [256]instructionType{
-		{0x00, "brk", m_Implied, 1, 8, c.op_brk},                   // BRK
+		{0x00, "brk", m_Implied, 2, 8, c.op_brk},                   // BRK
 		{0x01, "ora", m_DP_X_Indirect, 2, 7, c.op_ora},             // ORA ($10,X)
 		{0x02, "cop", m_Immediate, 2, 8, c.op_cop},                 // COP #$12
 		{0x03, "ora", m_Stack_Relative, 2, 5, c.op_ora},            // ORA $32,S
